@@ -196,6 +196,8 @@ def layout_fn(P, u, rep, fname, union):
         vid = list(locs)[0]
         havoc_step, havoc_exit = {vid: 'B'}, {vid: 'Bx'}
 
+    budget_end = time.process_time() + 8       # CPU seconds for all explorations of this function (about 2 on today's tree)
+
     def mk_state(ctx, cls, packed):
         mty = Obj('Type', lazy=True, label='mem.ty')
         mty.fields.update({'size': Sym('S', 'int'), 'align': Sym('TA', 'int')})
@@ -242,6 +244,7 @@ def layout_fn(P, u, rep, fname, union):
             return post
         it = StepInterp(P, u, {'cut': {'struct_union_decl': cut_sud}, 'track_stores': False},
                         loop, havoc_step if mode == 'step' else havoc_exit, mode, on_entry, snapshot)
+        it.deadline = budget_end
         paths = it.explore(fname, lambda ctx: [_Ref(_ValPlace(0)), Obj('Token', lazy=True, label='tok')], max_paths=400)
         return it, paths
 
@@ -1068,7 +1071,7 @@ def r084_specifier_state(P, u, rep):
             cuts[name] = mk_writer(name, sorted(positions))
         it = IterInterp(P, u, {'opaque': opaque, 'cut': cuts, 'loop_limit': 1, 'forever_limit': 2, 'track_stores': True})
         it.deep = frozenset(deep)
-        it.deadline = time.time() + 8
+        it.set_budget(8)
         try:
             paths = it.explore(fname, generic_args(u, fname), max_paths=3000)
         except AnalysisBroken as ex:
